@@ -5,6 +5,7 @@ import (
 	"encoding/json"
 	"errors"
 	"fmt"
+	"math"
 	"strconv"
 	"strings"
 	"testing"
@@ -47,6 +48,13 @@ func pokeWithCustomHooks(id uu.ID, text string) {
 	var u uu.ID
 	_ = u.UnmarshalText([]byte(text))
 	_ = json.Unmarshal([]byte(`"`+text+`"`), &u)
+	// second stage: a Formatter that fails (after writing something), used once, before the defaults come back
+	uu.Formatter = func(buf []byte, id uu.ID, f uu.Format) ([]byte, error) {
+		return append(buf, "part"...), errors.New("formatter refused")
+	}
+	_, _ = id.String(), id.URN()
+	_ = fmt.Sprintf("%s %u", id, id)
+	_, _ = id.MarshalText()
 }
 
 func setLimit(l int) func() {
@@ -660,8 +668,42 @@ func TestCheck(t *testing.T) {
 		}
 	})
 
+	// Phase R: runes that fold, truncate (low byte, low 16 bits) or widen to a hex digit, a hyphen or a prefix letter: inserted,
+	// put in place of one byte, and put in place of as many bytes as they are long (so that the length stays right).
+	r.Phase("R: confusable runes inserted, substituted for one byte and substituted length-preservingly at every position of valid texts x 4 rule sets, default and disabled limit", func() {
+		runes := ref.ConfusableRunes("0123456789abcdefABCDEF-urn:id")
+		x := format(0x0123456789abcdef, 0xfedcba9876543210)
+		bases := []string{x, "urn:uuid:" + x, strings.ToUpper(x)}
+		for _, lim := range []int{0, -1} {
+			restore := setLimit(lim)
+			r.Parallel(int64(len(runes)), 4, func(w *vkit.W, lo, hi int64) {
+				for i := lo; i < hi; i++ {
+					rs := string(runes[i])
+					for _, base := range bases {
+						for pos := 0; pos <= len(base); pos++ {
+							texts := []string{base[:pos] + rs + base[pos:]}
+							if pos < len(base) {
+								texts = append(texts, base[:pos]+rs+base[pos+1:])
+							}
+							if pos+len(rs) <= len(base) {
+								texts = append(texts, base[:pos]+rs+base[pos+len(rs):])
+							}
+							for _, text := range texts {
+								for _, rule := range rules {
+									judge(Case{Kind: "text", Text: vkit.B(text), Rule: rule, Limit: lim}, w)
+									w.EvalRandom(vkit.Hash64("R", text, strconv.Itoa(rule), strconv.Itoa(lim)), true)
+								}
+							}
+						}
+					}
+				}
+			})
+			restore()
+		}
+	})
+
 	r.Phase(fmt.Sprintf("W: %d conventional special texts (null, nil, the nil UUID, braces, every prefix of urn:uuid:, ...) x 4 rule sets x limits", len(ref.ConventionalTexts)), func() {
-		for _, lim := range []int{0, -1, 3} {
+		for _, lim := range []int{0, -1, 3, math.MaxInt, math.MaxInt - 1, 1 << 31, 1 << 32} {
 			restore := setLimit(lim)
 			r.Serial(func(w *vkit.W) {
 				for _, text := range ref.ConventionalTexts {
